@@ -535,7 +535,7 @@ def lifecycle_case(draw, tail_kinds=("op", "kraus", "measure", "struct", "trace_
 # reducing call leaves behind (positions, dimensions, flags) only show in the follow-up call.
 # ----------------------------------------------------------------------------------------
 @st.composite
-def survivor_case(draw, touches=("resize", "fockop", "op", "measure", "kraus", "trace_out", "reorder", "povm"), max_touch=3, finals=()):
+def survivor_case(draw, touches=("resize", "fockop", "op", "measure", "kraus", "trace_out", "reorder", "povm", "multi", "multi"), max_touch=3, finals=()):
     n_env = draw(st.integers(2, 3))
     envs = []
     same = draw(st.sampled_from([0, 0, 2, 3]))   # equal dimensions everywhere: a call acting on the wrong axis still fits
@@ -550,6 +550,11 @@ def survivor_case(draw, touches=("resize", "fockop", "op", "measure", "kraus", "
     members = list(draw(st.permutations(all_subs))[:k])
     layout = [dict(members=members, via="ce0", level=draw(st.sampled_from([1, 2])),
                    state=dict(cls=draw(st.sampled_from(["pure", "mixed", "product", "basis", "lowphoton"])), seed=draw(seeds)))]
+    rest = [s_ for s_ in all_subs if s_ not in members]
+    if len(rest) >= 2 and draw(st.booleans()):
+        # a second product space next to it
+        layout.append(dict(members=list(draw(st.permutations(rest))[:2]), via="ce0", level=draw(st.sampled_from([1, 2])),
+                           state=dict(cls=draw(st.sampled_from(["pure", "mixed", "product"])), seed=draw(seeds))))
     info = Info(spec, layout)
     steps = []
     # the reducing call: mostly on a member stored in front of others
@@ -558,7 +563,12 @@ def survivor_case(draw, touches=("resize", "fockop", "op", "measure", "kraus", "
         t = members[0] if draw(st.booleans()) else draw(st.sampled_from(members[:-1]))
         how = draw(st.sampled_from(["measure", "measure", "measure", "povm"]))
         if how == "measure":
-            steps.append(dict(k="measure", entry=draw(st.sampled_from(["ce0", "ce0", "state"])), targets=[t], sep=draw(st.sampled_from([True, True, False])),
+            ts = [t]
+            if draw(st.integers(0, 2)) == 0:
+                # several members in one call, in generated order (custom states before / after Fock and polarization)
+                ts = list(dict.fromkeys([t] + list(draw(st.permutations(members))[: draw(st.integers(1, 2))])))
+                ts = list(draw(st.permutations(ts)))
+            steps.append(dict(k="measure", entry=draw(st.sampled_from(["ce0", "ce0", "state"])) if len(ts) == 1 else "ce0", targets=ts, sep=draw(st.sampled_from([True, True, False])),
                               destructive=draw(st.booleans()), script=draw(st.lists(st.integers(0, 5), max_size=3))))
         else:
             steps.append(dict(k="povm", entry=draw(st.sampled_from(["ce0", "state"])), targets=[t], pseed=draw(seeds), nops=2, projective=draw(st.booleans()),
@@ -585,9 +595,18 @@ def survivor_case(draw, touches=("resize", "fockop", "op", "measure", "kraus", "
             n = draw(st.integers(1, 2))
             ts = list(dict.fromkeys(draw(st.permutations(members))))[:n]
             steps.append(dict(k="trace_out", entry="ce0", targets=ts))
+        elif how == "multi":
+            # a multi-subsystem action through the composite: a member (often a measured one that stayed usable)
+            # together with a subsystem stored elsewhere
+            a_ = draw(st.sampled_from(members))
+            b_ = draw(st.sampled_from([s_ for s_ in all_subs if s_ != a_]))
+            steps.append(dict(k=draw(st.sampled_from(["kraus", "kraus", "trace_out", "povm"])), entry="ce0", targets=list(draw(st.permutations([a_, b_]))),
+                              kseed=draw(seeds), nops=2, unitary=False, pseed=draw(seeds), projective=draw(st.booleans()), destructive=False, partial=True,
+                              unsharp=None, script=draw(st.lists(st.integers(0, 5), max_size=2))))
         elif how == "povm":
             steps.append(dict(k="povm", entry=draw(st.sampled_from(["ce0", "state"])), targets=[t], pseed=draw(seeds), nops=2, projective=draw(st.booleans()),
-                              destructive=draw(st.booleans()), partial=draw(st.booleans()), unsharp=None, script=draw(st.lists(st.integers(0, 5), max_size=2))))
+                              destructive=draw(st.booleans()), partial=draw(st.booleans()), unsharp=(draw(st.floats(-8, -2)) if draw(st.integers(0, 3)) == 0 else None),
+                              script=draw(st.lists(st.integers(0, 5), max_size=2))))
         else:
             n = draw(st.integers(1, len(members)))
             steps.append(dict(k="struct", call=draw(st.sampled_from(["ce_reorder", "ce_combine"])), ce="ce0", members=list(draw(st.permutations(members))[:n])))
